@@ -1,44 +1,78 @@
 (** C07 -- eval_decimal arithmetic is exact in base 10.
-    Every arithmetic step of eval_decimal is a rust_decimal checked_* call (an oracle of this development):
-      C07_structure     + - * / % and unary minus apply exactly one library operation per node, in operand
-                        order, and a library failure (division by zero, result out of range) is Err, never a
-                        panic and never a value
-      C07_exact_model   the exact reference [dq] (rationals as numerator / 10^scale): when the library returns
-                        the representation the theorem's hypothesis describes (exact sum / product at the
-                        combined scale), the value of the result is the exact rational -- the hypothesis is what
-                        the primitive-level correspondence validates on every run
-    Partial: exactness of rust_decimal's own add / mul / div / rem (and the 1e-27 bound on inexact quotients)
-    is a property of an external crate; it is tested on every run against exact rational arithmetic
-    (Python fractions) on random trees with varied scales and 27-29 digit boundary literals. *)
+    The model of eval_decimal evaluates + - * and unary minus with the written-out exact paths of
+    Base/Dec.v whenever they apply (no rescaling needed: an operand is zero, or the coefficients aligned to
+    the larger scale and their sum stay below 2^96; product of the coefficients below 2^96 with at most 28
+    fractional digits) and with rust_decimal's checked_* operation (an oracle) otherwise; / and % are always
+    the library's checked_div / checked_rem. The correspondence compares this model bit for bit
+    (coefficient, scale, sign) with the real crate on every run, so the written-out paths are validated
+    against rust_decimal itself.
+      C07_exact_tree       on every tree over literals, + - * and unary minus whose steps all stay on the exact
+                           paths, eval_decimal returns Ok r with value(r) = the exact rational value of the tree,
+                           for any behaviour of the library
+      C07_exact_ops        each exact path returns exactly x+y, x-y, x*y, -x (as rationals) and a valid Decimal
+      C07_exact_paths_cover the exact paths are defined for every sum / product that needs no rescaling
+      C07_structure        which operation each node applies; C07_failure_is_err: a library failure (zero
+                           divisor, result out of range) is Err, never a panic and never a value
+    Partial: sums and products that need rescaling or rounding (more than 28 fractional digits, 29+ digit
+    coefficients), exactness of checked_div / checked_rem and the 1e-27 bound on inexact quotients are
+    properties of rust_decimal; they are tested on every run against exact rational arithmetic. *)
 From Coq Require Import List ZArith NArith QArith Bool.
-From SC Require Import Base.Res Base.Dec Base.Oracle Lang.Syntax Eval.EvalDec.
+From SC Require Import Base.Res Base.Dec Base.Oracle Lang.Syntax Eval.EvalDec Proofs.DecFacts.
 Import ListNotations.
+
+Theorem C07_exact_tree :
+  forall (D : declib) (a : node dec) (r : dec),
+    simple_eval a = Some r ->
+    eval_dec D a = Ok r /\ exists q, exactQ a = Some q /\ dq r == q.
+Proof. exact simple_eval_exact. Qed.
+Print Assumptions C07_exact_tree.
+
+Theorem C07_exact_ops :
+  (forall x y r, dec_add_exact x y = Some r -> dq r == dq x + dq y) /\
+  (forall x y r, dec_sub_exact x y = Some r -> dq r == dq x - dq y) /\
+  (forall x y r, dec_mul_exact x y = Some r -> dq r == dq x * dq y) /\
+  (forall x, dq (dec_neg x) == - dq x) /\
+  (forall x y sg r, dec_ok x = true -> dec_ok y = true -> dec_aligned x y sg = Some r -> dec_ok r = true).
+Proof. repeat split; [exact add_exact|exact sub_exact|exact mul_exact|exact dq_neg|exact aligned_ok]. Qed.
+Print Assumptions C07_exact_ops.
+
+Theorem C07_exact_paths_cover :
+  (forall x y, dec_is_zero x = false -> dec_is_zero y = false ->
+     let s := N.max (d_scale x) (d_scale y) in
+     let cx := (dec_signed x * pow10 (s - d_scale x))%Z in
+     let cy := (dec_signed y * pow10 (s - d_scale y))%Z in
+     (Z.abs cx < dec_lim)%Z -> (Z.abs cy < dec_lim)%Z -> (Z.abs (cx + cy) < dec_lim)%Z ->
+     dec_add_exact x y = Some (mkdec (cx + cy) s)) /\
+  (forall x y, (d_coef x * d_coef y < 2 ^ 96)%N -> (d_scale x + d_scale y <= 28)%N -> dec_mul_exact x y <> None).
+Proof. split; [exact add_exact_defined|exact mul_exact_defined]. Qed.
+Print Assumptions C07_exact_paths_cover.
 
 Theorem C07_structure :
   forall (D : declib) x y,
-    bin_dec D BAdd x y = of_option (d2 D DAdd x y) /\ bin_dec D BSubtract x y = of_option (d2 D DSub x y) /\
-    bin_dec D BMultiply x y = of_option (d2 D DMul x y) /\ bin_dec D BDivide x y = of_option (d2 D DDiv x y) /\
-    bin_dec D BModulo x y = of_option (d2 D DRem x y).
+    bin_dec D BAdd x y = ex2 D dec_add_exact DAdd x y /\ bin_dec D BSubtract x y = ex2 D dec_sub_exact DSub x y /\
+    bin_dec D BMultiply x y = ex2 D dec_mul_exact DMul x y /\ bin_dec D BDivide x y = of_option (d2 D DDiv x y) /\
+    bin_dec D BModulo x y = of_option (d2 D DRem x y) /\ un_dec D UNegative x = Ok (dec_neg x).
 Proof. intros. repeat split; reflexivity. Qed.
 Print Assumptions C07_structure.
 
 Theorem C07_failure_is_err :
-  forall (D : declib) b x y, d2 D DDiv x y = None -> d2 D DRem x y = None ->
-    (b = BDivide \/ b = BModulo) -> bin_dec D b x y = Err.
-Proof. intros D b x y H1 H2 [->| ->]; simpl; unfold o2; [now rewrite H1|now rewrite H2]. Qed.
+  forall (D : declib) x y,
+    (d2 D DDiv x y = None -> bin_dec D BDivide x y = Err) /\ (d2 D DRem x y = None -> bin_dec D BModulo x y = Err) /\
+    (dec_add_exact x y = None -> d2 D DAdd x y = None -> bin_dec D BAdd x y = Err) /\
+    (dec_mul_exact x y = None -> d2 D DMul x y = None -> bin_dec D BMultiply x y = Err).
+Proof.
+  intros D x y. repeat split; intros; simpl; unfold ex2, o2;
+  repeat match goal with H : _ = None |- _ => rewrite H end; reflexivity.
+Qed.
 Print Assumptions C07_failure_is_err.
 
-(** the exact value of a Decimal *)
-Definition dq (d : dec) : Q :=
-  (if d_neg d then Qopp else fun q => q) (Qmake (Z.of_N (d_coef d)) (Pos.of_nat (Nat.pow 10 (N.to_nat (d_scale d))))).
-
-Theorem C07_exact_when_library_is :
-  forall (D : declib) x y r,
-    d2 D DMul x y = Some r ->
-    d_coef r = (d_coef x * d_coef y)%N -> d_scale r = (d_scale x + d_scale y)%N -> d_neg r = xorb (d_neg x) (d_neg y) ->
-    bin_dec D BMultiply x y = Ok r /\ dec_signed r = (dec_signed x * dec_signed y)%Z.
-Proof.
-  intros D x y r H Hc Hs Hn. split; [simpl; unfold o2; now rewrite H|].
-  unfold dec_signed. rewrite Hn, Hc. rewrite N2Z.inj_mul. destruct (d_neg x), (d_neg y); simpl; ring.
-Qed.
-Print Assumptions C07_exact_when_library_is.
+(** the property's examples: 0.1 + 0.2 is exactly 0.3; 1.10 * 3 is exactly 3.30; 0.3 - 0.1 - 0.2 is exactly 0 *)
+Definition d (c : Z) (s : N) : node dec := NNum (mkdec c s).
+Example C07_examples :
+  forall D : declib,
+    eval_dec D (NBin BAdd (d 1 1) (d 2 1)) = Ok (mkdec 3 1) /\
+    eval_dec D (NBin BMultiply (d 110 2) (d 3 0)) = Ok (mkdec 330 2) /\
+    eval_dec D (NBin BSubtract (NBin BSubtract (d 3 1) (d 1 1)) (d 2 1)) = Ok (mkdec 0 1) /\
+    eval_dec D (NUn UNegative (NBin BMultiply (d 15 1) (d (-25) 2))) = Ok (mkdec 375 3) /\
+    simple_eval (NBin BMultiply (d 79228162514264337593543950335 0) (d 11 1)) = None.
+Proof. intros. repeat split; vm_compute; reflexivity. Qed.
